@@ -59,6 +59,7 @@ func replayRecorded(c *core.Ctx) {
 				Act      string     `json:"act"`
 				Sites    []string   `json:"sites"`
 				Scenario fsScenario `json:"scenario"`
+				Triple   fsTriple   `json:"triple"`
 				Seed     int64      `json:"seed"`
 			} `json:"replay"`
 		} `json:"record"`
@@ -144,6 +145,37 @@ func replayRecorded(c *core.Ctx) {
 		case v == "rejected" && sc.Verify:
 			c.Violate("fastsync-reactor/rejects-a-commit", fmt.Sprintf("the syncing node rejected block 1 on slots %v of validator set %v (%s); the specification accepts this commit", sc.Kinds, sc.Pw, d), rec)
 		default:
+			fmt.Println("replay: the recorded input no longer fails")
+		}
+	case "fastsync3":
+		// the recorded behaviour on the real reactors, in a child process (ApplyBlock may panic)
+		sc := rp.Triple
+		seed := c.Seed
+		c.Seed = rp.Seed
+		ends, commits, _, _, ok := runTriples(c, []fsTriple{sc}, nil)
+		c.Seed = seed
+		per, held, died, have := fsObserved(0, ends, commits, sc)
+		if !ok || !have {
+			c.Infra("fast sync (triples): the recorded behaviour could not be executed")
+			return
+		}
+		c.AddTraces(1)
+		c.AddEvals(len(per))
+		rec := map[string]interface{}{"kind": "fastsync3", "scenario": sc, "observed": per, "held": held, "process_died": died, "replay": rp}
+		vs := fsJudge(sc, per, held, died)
+		n := 0
+		for _, v := range vs {
+			switch {
+			case v.infra:
+				c.Infra("fast sync (triples): %s", v.desc)
+			case v.shape:
+				c.Drift("%s: %s", v.key, v.desc)
+			default:
+				c.Violate(v.key, v.desc, rec)
+				n++
+			}
+		}
+		if n == 0 {
 			fmt.Println("replay: the recorded input no longer fails")
 		}
 	default:
